@@ -40,7 +40,7 @@ def okStat : Stat → Bool
   | .do_ b _ => okBlock b
   | .while_ c b _ => okExp c && okBlock b
   | .repeat_ b c _ => okBlock b && okExp c
-  | .if_ cs bs _ => okExps cs && okBlocks bs
+  | .if_ cs bs _ _ => okExps cs && okBlocks bs
   | .fornum _ _ i lim st b _ => okExp i && okExp lim && okExp st && okBlock b
   | .forin _ es b _ => okExps es && okBlock b
   | .assign vars exps _ => okExps vars && okExps exps
@@ -155,7 +155,7 @@ theorem tStat : (s : Stat) → (env : Env) → okStat s = true → bStat true en
   | .repeat_ b c _, env, h => by
     simp only [okStat, Bool.and_eq_true] at h
     simp only [bStat, tBlock b env h.1, tExp c _ h.2]
-  | .if_ cs bs _, env, h => by
+  | .if_ cs bs _ _, env, h => by
     simp only [okStat, Bool.and_eq_true] at h; simp [bStat, tExps cs env h.1, tBlocks bs env h.2]
   | .fornum v vl i lim st b _, env, h => by
     simp only [okStat, Bool.and_eq_true] at h
